@@ -510,16 +510,17 @@ theorem goodOrder_snoc {s : Schema} {acc : List Name} {t : Name} (h : GoodOrder 
     obtain ⟨h1, _⟩ := List.append_inj' heq' (by simp)
     exact h pre c post' h1 p hp
 
-theorem not_acc_of_closed {s : Schema} {todo acc : List Name}
+theorem not_acc_of_closed {s : Schema} {todo created acc : List Name}
     (hclosed : ∀ t ∈ todo, ∀ p ∈ parents s t, p ∈ acc ∨ p ∈ todo)
-    (hnone : todo.find? (ready s acc) = none) : ∀ t, Acc (ParentRel s) t → t ∉ todo := by
+    (hpopped : ∀ x ∈ acc, x ∈ created ∨ ¬ Acc (ParentRel s) x)
+    (hnone : todo.find? (ready s created) = none) : ∀ t, Acc (ParentRel s) t → t ∉ todo := by
   intro t hacc
   induction hacc with
-  | intro t _ ih =>
+  | intro t hpre ih =>
     intro ht
     have hnr := (List.find?_eq_none.mp hnone) t ht
     simp only [ready, List.all_eq_true] at hnr
-    have : ∃ p ∈ parents s t, p ∉ acc := by
+    have : ∃ p ∈ parents s t, p ∉ created := by
       apply Classical.byContradiction
       intro hcon
       apply hnr
@@ -528,37 +529,40 @@ theorem not_acc_of_closed {s : Schema} {todo acc : List Name}
       apply Classical.byContradiction
       intro hpa
       exact hcon ⟨p, hp, hpa⟩
-    obtain ⟨p, hp, hpa⟩ := this
+    obtain ⟨p, hp, hpc⟩ := this
     rcases hclosed t ht p hp with h | h
-    · exact hpa h
+    · rcases hpopped p h with h' | h'
+      · exact hpc h'
+      · exact h' (hpre p hp)
     · exact ih p hp h
 
-theorem orderLoop_spec (s : Schema) : ∀ (fuel : Nat) (todo acc : List Name), todo.length ≤ fuel →
-    (∀ t ∈ todo, ∀ p ∈ parents s t, p ∈ acc ∨ p ∈ todo) → GoodOrder s acc →
-    (orderLoop s fuel todo acc).Perm (acc ++ todo) ∧ GoodOrder s (orderLoop s fuel todo acc) := by
+theorem orderLoop_spec (s : Schema) : ∀ (fuel : Nat) (todo created acc : List Name), todo.length ≤ fuel →
+    (∀ t ∈ todo, ∀ p ∈ parents s t, p ∈ acc ∨ p ∈ todo) → (∀ x ∈ created, x ∈ acc) →
+    (∀ x ∈ acc, x ∈ created ∨ ¬ Acc (ParentRel s) x) → GoodOrder s acc →
+    (orderLoop s fuel todo created acc).Perm (acc ++ todo) ∧ GoodOrder s (orderLoop s fuel todo created acc) := by
   intro fuel
   induction fuel with
   | zero =>
-    intro todo acc hlen _ hg
+    intro todo created acc hlen _ _ _ hg
     have : todo = [] := List.eq_nil_of_length_eq_zero (by omega)
     subst this
     simp [orderLoop, hg]
   | succ fuel ih =>
-    intro todo acc hlen hclosed hg
+    intro todo created acc hlen hclosed hsub hpopped hg
     simp only [orderLoop]
-    cases hf : todo.find? (ready s acc) with
+    cases hf : todo.find? (ready s created) with
     | some t =>
       simp only
       have htm : t ∈ todo := List.mem_of_find?_eq_some hf
-      have hr : ready s acc t = true := List.find?_some hf
+      have hr : ready s created t = true := List.find?_some hf
       have hpar : ∀ p ∈ parents s t, p ∈ acc := by
         intro p hp
         simp only [ready, List.all_eq_true] at hr
-        simpa using hr p hp
+        exact hsub p (by simpa using hr p hp)
       have hperm : (acc ++ [t] ++ todo.erase t).Perm (acc ++ todo) := by
         rw [List.append_assoc]
         exact List.Perm.append_left _ (List.perm_cons_erase htm).symm
-      have := ih (todo.erase t) (acc ++ [t])
+      have := ih (todo.erase t) (created ++ [t]) (acc ++ [t])
         (by rw [List.length_erase_of_mem htm]; omega)
         (by
           intro t' ht' p hp
@@ -570,6 +574,20 @@ theorem orderLoop_spec (s : Schema) : ∀ (fuel : Nat) (todo acc : List Name), t
             · exact Or.inl (Or.inl h1)
             · exact Or.inl (Or.inr h1)
             · exact Or.inr h1)
+        (by
+          intro x hx
+          simp only [List.mem_append, List.mem_singleton] at hx ⊢
+          rcases hx with hx | hx
+          · exact Or.inl (hsub x hx)
+          · exact Or.inr hx)
+        (by
+          intro x hx
+          simp only [List.mem_append, List.mem_singleton] at hx ⊢
+          rcases hx with hx | hx
+          · rcases hpopped x hx with h | h
+            · exact Or.inl (Or.inl h)
+            · exact Or.inr h
+          · exact Or.inl (Or.inr hx))
         (goodOrder_snoc hg (Or.inl hpar))
       exact ⟨this.1.trans hperm, this.2⟩
     | none =>
@@ -583,13 +601,13 @@ theorem orderLoop_spec (s : Schema) : ∀ (fuel : Nat) (todo acc : List Name), t
         simp only
         have hsplit := getLast?_split hl
         have htm : t ∈ todo := by rw [hsplit]; simp
-        have hna : ¬ Acc (ParentRel s) t := fun hacc => not_acc_of_closed hclosed hf t hacc htm
+        have hna : ¬ Acc (ParentRel s) t := fun hacc => not_acc_of_closed hclosed hpopped hf t hacc htm
         have hperm : (acc ++ [t] ++ todo.dropLast).Perm (acc ++ todo) := by
           rw [List.append_assoc]
           apply List.Perm.append_left
           conv => rhs; rw [hsplit]
           exact List.perm_append_comm
-        have := ih todo.dropLast (acc ++ [t])
+        have := ih todo.dropLast created (acc ++ [t])
           (by rw [List.length_dropLast]; omega)
           (by
             intro t' ht' p hp
@@ -601,6 +619,13 @@ theorem orderLoop_spec (s : Schema) : ∀ (fuel : Nat) (todo acc : List Name), t
             · exact Or.inl (Or.inl h1)
             · exact Or.inl (Or.inr h1)
             · exact Or.inr h1)
+          (by intro x hx; simp [hsub x hx])
+          (by
+            intro x hx
+            simp only [List.mem_append, List.mem_singleton] at hx
+            rcases hx with hx | hx
+            · exact hpopped x hx
+            · exact Or.inr (hx ▸ hna))
           (goodOrder_snoc hg (Or.inr hna))
         exact ⟨this.1.trans hperm, this.2⟩
 
@@ -613,13 +638,85 @@ theorem orderTables_spec {s : Schema} (h : Inv s) :
     (orderTablesToCreate s).Perm (tableNames s) ∧ GoodOrder s (orderTablesToCreate s) := by
   unfold orderTablesToCreate
   have hsort := List.mergeSort_perm (tableNames s) nameLe
-  have := orderLoop_spec s ((tableNames s).mergeSort nameLe).length ((tableNames s).mergeSort nameLe) [] (Nat.le_refl _)
+  have := orderLoop_spec s ((tableNames s).mergeSort nameLe).length ((tableNames s).mergeSort nameLe) [] [] (Nat.le_refl _)
     (by
       intro t _ p hp
       obtain ⟨f, hf, _, rfl, _⟩ := mem_parents hp
       exact Or.inr ((hsort.mem_iff).mpr (h.fkTables f hf).2))
+    (by intro x hx; cases hx)
+    (by intro x hx; cases hx)
     (by intro pre c post heq; simp at heq)
   exact ⟨by simpa using this.1.trans (by simpa using hsort), this.2⟩
+
+/-! ### creation script: foreign keys are added only between tables that already exist -/
+
+/-- the foreign key `n` of child table `c` exists in the schema and both of its tables are in `cr` -/
+def FkOk (s : Schema) (cr : List Name) (c n : Name) : Prop :=
+  c ∈ cr ∧ ∃ f ∈ s.fks, f.table = c ∧ f.name.getD [] = n ∧ f.parent ∈ cr
+
+/-- scan a creation script keeping the list of tables created so far: every ADD FOREIGN KEY command must refer to a
+    foreign key of the schema whose child and parent tables have been created before the command -/
+def Scan (s : Schema) : List Name → List Cmd → Prop
+  | _, [] => True
+  | cr, .table t :: rest => Scan s (cr ++ [t]) rest
+  | cr, .index _ _ :: rest => Scan s cr rest
+  | cr, .fk c n :: rest => FkOk s cr c n ∧ Scan s cr rest
+
+def NoTableOk (s : Schema) (cr : List Name) : Cmd → Prop
+  | .table _ => False
+  | .index _ _ => True
+  | .fk c n => FkOk s cr c n
+
+theorem scan_append_noTable (s : Schema) (cr : List Name) (tail : List Cmd) :
+    ∀ (X : List Cmd), (∀ cmd ∈ X, NoTableOk s cr cmd) → Scan s cr tail → Scan s cr (X ++ tail)
+  | [], _, ht => ht
+  | cmd :: X, hX, ht => by
+    have h1 := hX cmd (by simp)
+    have h2 := scan_append_noTable s cr tail X (fun c hc => hX c (by simp [hc])) ht
+    cases cmd with
+    | table t => exact absurd h1 (by simp [NoTableOk])
+    | index t n => simpa [Scan] using h2
+    | fk c n => exact ⟨h1, h2⟩
+
+theorem mem_sortByName {α} (key : α → Name) (l : List α) (x : α) : x ∈ sortByName key l ↔ x ∈ l :=
+  (List.mergeSort_perm l _).mem_iff
+
+theorem objectsToCreate_spec (d : Dialect) (s : Schema) (cr : List Name) (t : Name) (ht : t ∈ cr) :
+    ∃ X, objectsToCreate d s cr t = Cmd.table t :: X ∧ ∀ cmd ∈ X, NoTableOk s cr cmd := by
+  unfold objectsToCreate
+  refine ⟨_, rfl, ?_⟩
+  intro cmd hcmd
+  simp only [List.mem_append, List.mem_map] at hcmd
+  rcases hcmd with ⟨ix, _, rfl⟩ | hfk
+  · trivial
+  · split at hfk
+    · simp only [List.mem_map, List.mem_append] at hfk
+      obtain ⟨f, hf, rfl⟩ := hfk
+      rcases hf with hf | hf
+      · rw [mem_sortByName] at hf
+        simp only [tableFks, List.mem_filter] at hf
+        obtain ⟨⟨hfs, hft⟩, hpar⟩ := hf
+        have hft' : f.table = t := by simpa using hft
+        exact ⟨hft' ▸ ht, f, hfs, rfl, rfl, by simpa using hpar⟩
+      · simp only [List.mem_flatMap] at hf
+        obtain ⟨c, hc, hf⟩ := hf
+        rw [mem_sortByName] at hf
+        have hc' := (List.mergeSort_perm _ _).mem_iff.mp hc
+        simp only [List.mem_filter, Bool.and_eq_true] at hc'
+        simp only [tableFks, List.mem_filter] at hf
+        obtain ⟨⟨hfs, hft⟩, hpar⟩ := hf
+        have hft' : f.table = c := by simpa using hft
+        have hpar' : f.parent = t := by simpa using hpar
+        have hccr : c ∈ cr := by simpa using hc'.2.2
+        exact ⟨hft' ▸ hccr, f, hfs, rfl, rfl, hpar' ▸ ht⟩
+    · cases hfk
+
+theorem createLoop_scan (d : Dialect) (s : Schema) : ∀ (rest created : List Name), Scan s created (createLoop d s rest created)
+  | [], _ => trivial
+  | t :: rest, created => by
+    obtain ⟨X, hX, hok⟩ := objectsToCreate_spec d s (created ++ [t]) t (by simp)
+    simp only [createLoop, hX, List.cons_append, Scan]
+    exact scan_append_noTable s _ _ X hok (createLoop_scan d s rest (created ++ [t]))
 
 /-! ### operation lists -/
 
